@@ -133,8 +133,10 @@ def domain(desc, scope):
     if k == 'int':
         # small scope plus magnitudes beyond float precision (exact integer
         # arithmetic must not go through floats)
-        return list(range(-scope, scope + 2)) + [
-            2 ** 63 + 1, -(2 ** 63) - 1, 10 ** 40 + 7]
+        small = list(range(-scope, scope + 2))
+        if desc.get('big'):
+            small += [2 ** 63 + 1, -(2 ** 63) - 1, 10 ** 40 + 7]
+        return small
     if k == 'bool':
         return [False, True]
     if k == 'str':
